@@ -40,6 +40,8 @@ class An:
         for o in scn.ops:
             if o.startswith("in "):
                 self.input += unhx(o.split()[1])
+            elif o.startswith(("hq ", "vq ")):
+                pass      # answer scripts are not operations: no trace line
             else:
                 k += 1
                 self.optext[k] = o
